@@ -41,31 +41,35 @@ Section BlockEngineReal.
 
   Definition brtree : Type := rtree (BNode T) (BIn T) (ChildOut T) (BLayout T).
 
-  Definition blr_memo (pre : BStyle T -> BIn T -> BIn T) (abs_child : @AbsChild T) : nat -> brtree -> BIn T -> option (ChildOut T * brtree) :=
+  (* `teq` = the equality of numbers in the GHOST comparison "was the answering entry stored for this complete input?" (it decides only
+     which hits are counted as lossy: Proofs/EngineReal.v gmemo_counters_irrelevant); the runner uses the representation equality
+     f32_seqb, for which the premise "equal keys are equal inputs" of the transfer theorem holds *)
+  Definition blr_memo (teq : T -> T -> bool) (pre : BStyle T -> BIn T -> BIn T) (abs_child : @AbsChild T)
+    : nat -> brtree -> BIn T -> option (ChildOut T * brtree) :=
     memo_real (BNode T) (BIn T) (ChildOut T) (BLayout T) bi_mode bn_is_none hidden_child_out zero_blay (bl_algo pre abs_child) bl_mcalls
-              bkey_of bosize bfrom_outer bin_eqb b_is_outer.
+              bkey_of bosize bfrom_outer (bin_eqb_with teq) b_is_outer.
   Definition blr_fresh : Engine.sk (BNode T) -> brtree :=
     fresh_real (BNode T) (BIn T) (ChildOut T) (BLayout T) zero_blay.
 
   (* compute_root_layout (as Model/BlockRoot.v `block_compute_root`, over the real-cache engine) *)
-  Definition blr_compute_root (pre : BStyle T -> BIn T -> BIn T) (abs_child : @AbsChild T) (fuel : nat) (t : brtree)
+  Definition blr_compute_root (teq : T -> T -> bool) (pre : BStyle T -> BIn T -> BIn T) (abs_child : @AbsChild T) (fuel : nat) (t : brtree)
              (avail : BSize (Avail T)) : option brtree :=
     let st := bn_style (gstyle _ _ _ t) in
-    match blr_memo pre abs_child fuel t (root_bin (block_root_known st avail) avail) with
+    match blr_memo teq pre abs_child fuel t (root_bin (block_root_known st avail) avail) with
     | Some (o, t') => Some (gset_lay _ _ _ t' (block_root_layout st avail o))
     | None => None
     end.
 
   (* compute_layout several times on the same tree (no mutation in between): after every pass the stored layouts and the counters
      of that pass, all nodes in pre-order *)
-  Fixpoint blr_passes (pre : BStyle T -> BIn T -> BIn T) (abs_child : @AbsChild T) (fuel : nat) (t : brtree)
+  Fixpoint blr_passes (teq : T -> T -> bool) (pre : BStyle T -> BIn T -> BIn T) (abs_child : @AbsChild T) (fuel : nat) (t : brtree)
            (avails : list (BSize (Avail T))) : option (list (list (BLayout T) * list stats)) :=
     match avails with
     | [] => Some []
     | a :: rest =>
-        match blr_compute_root pre abs_child fuel (greset _ _ _ t) a with
+        match blr_compute_root teq pre abs_child fuel (greset _ _ _ t) a with
         | Some t' =>
-            match blr_passes pre abs_child fuel t' rest with
+            match blr_passes teq pre abs_child fuel t' rest with
             | Some ls => Some ((glays _ _ _ t', gcounts _ _ _ t') :: ls)
             | None => None
             end
@@ -73,7 +77,7 @@ Section BlockEngineReal.
         end
     end.
 
-  Definition blr_layout_passes (pre : BStyle T -> BIn T -> BIn T) (abs_child : @AbsChild T) (fuel : nat) (t : Engine.sk (BNode T))
+  Definition blr_layout_passes (teq : T -> T -> bool) (pre : BStyle T -> BIn T -> BIn T) (abs_child : @AbsChild T) (fuel : nat) (t : Engine.sk (BNode T))
              (avails : list (BSize (Avail T))) : option (list (list (BLayout T) * list stats)) :=
-    blr_passes pre abs_child fuel (blr_fresh t) avails.
+    blr_passes teq pre abs_child fuel (blr_fresh t) avails.
 End BlockEngineReal.
